@@ -33,6 +33,7 @@ type FuncContract struct {
 	Pure         bool // no modelled heap effect; result is a function of arguments and heap read
 	MayPanic     bool
 	NoSafety     bool // implicit safety obligations are not generated (stated in evidence)
+	NoFrame      bool // the frame obligation is not generated (stated in evidence)
 	Requires     []Clause
 	Ensures      []Clause
 	Assumes      []Clause
@@ -140,7 +141,7 @@ func newContracts() *Contracts {
 
 var clauseKW = map[string]bool{"func": true, "spec": true, "lemma": true, "ghostheap": true, "props": true, "trusted": true, "inline": true,
 	"pure": true, "may_panic": true, "requires": true, "ensures": true, "ensures_ghost": true, "assume": true, "modifies": true, "loop": true, "functype": true,
-	"iface": true, "input_path": true, "no_safety": true, "package": true, "mode": true, "sweep": true, "at": true, "protocol": true, "guarded": true}
+	"iface": true, "input_path": true, "no_safety": true, "package": true, "mode": true, "sweep": true, "at": true, "protocol": true, "guarded": true, "no_frame": true}
 
 var labelRe = regexp.MustCompile(`^\[([A-Za-z0-9_.$#-]+)\]\s*`)
 
@@ -373,6 +374,9 @@ func (cs *Contracts) loadContractFile(path string, pkgPath string) error {
 				cur.MayPanic = true
 			case "no_safety":
 				cur.NoSafety = true
+			case "no_frame":
+				cur.NoFrame = true
+				cs.Scan["no_frame"]++
 			case "input_path":
 				cur.InputPath = true
 			case "mode":
